@@ -350,6 +350,26 @@ def run(ck):
             ok = False
     ck.ob("R2", "test_set:joker-consistency", ok, m.where(ts),
           "a joker already bound to another expression can be rebound: one joker matches two different sub-expressions")
+    # success implies bound: every path to a return that can be truthy on the joker branch (anything but `False` and the
+    # non-joker equality) passes the binding result[pattern] = expr
+    from sa.pathob import undischarged, path_text
+    succ_rets = []
+    for nd in tcfg.nodes:
+        if nd.kind == "stmt" and isinstance(nd.ast, ast.Return):
+            v = nd.ast.value
+            if v is None or (isinstance(v, ast.Constant) and not v.value):
+                continue
+            pq = cmp_parts(v) if isinstance(v, ast.Compare) else None
+            if pq and pq[1] == "==" and set([norm(pq[0]), norm(pq[2])]) == set([tE, tP]):
+                continue
+            succ_rets.append(nd)
+    ck.need(succ_rets, "test_set: no success return found")
+    bind_ids = set(b.id for b in binds if norm(b.ast.value) == tE)
+    for r_ in succ_rets:
+        wp = undischarged(tcfg, lambda nd: nd.id in bind_ids, targets=[r_.id])
+        ck.ob("R2", "test_set:success-implies-bound", wp is None, m.where(r_.ast),
+              "test_set can report success for a joker without recording (or checking) its binding: %s - a joker used twice then "
+              "matches two different sub-expressions" % (path_text(wp) if wp else ""))
     # joker test first in match_expr
     first = [s for s in fn.body if isinstance(s, ast.If)]
     ok = False
